@@ -740,3 +740,46 @@ def check_outputs_recorded_at_completion(ctx, why: str):
             ctx.bad(fi.fq, "the output hashes are recorded on every path that completes the step", f"a path (last tests {tests}) completes the step without recording what the command wrote: {why}", where=ctx.where_of(fi))
             return
     ctx.check(n > 0, fi.fq, "the output hashes are recorded on every path that completes the step", "no completing path found", f"{n} paths")
+
+
+def check_claims_replaced(ctx):
+    """R-C12-7: set_resources replaces the claims of a step: the old rows go, the declared ones come.
+
+    The dispatch predicate sums step_resource rows of RUNNING steps.  Rows of an earlier declaration that stay
+    behind keep counting against the pool (or collide with the new rows), rows that are not written let the
+    step run outside its declared claim.
+    """
+    import re
+
+    sr = ctx.prog.func("step.Step.set_resources")
+    stmts = ctx.sql.stmts_in(sr.fq)
+    dele = [s_ for s_ in stmts if s_.kind == "DELETE" and ("DELETE", "step_resource", None, None) in s_.writes]
+    ins = [s_ for s_ in stmts if s_.kind == "INSERT" and any(w[0] == "INSERT" and w[1] == "step_resource" for w in s_.writes)]
+    top = {id(st_.value) for st_ in sr.node.body if isinstance(st_, ast.Expr)}
+    ctx.check(len(dele) == 1 and id(dele[0].site.call) in top and "node = ?" in re.sub(r"\s+", " ", dele[0].text).replace(" . ", "."), sr.fq, "the step's old claims are deleted unconditionally", "claims of the previous declaration survive a re-declaration", "DELETE FROM step_resource WHERE node = ?", where=ctx.where_of(sr))
+    ctx.check(len(ins) == 1 and ins[0].site.lineno > (dele[0].site.lineno if dele else 0), sr.fq, "the declared claims are inserted after the delete", "declared claims are not stored", "INSERT INTO step_resource")
+    if dele:
+        dt = re.sub(r"\s+", " ", dele[0].text).replace(" . ", ".").strip()
+        ctx.check(re.fullmatch(r"DELETE FROM step_resource WHERE node = \?", dt) is not None, sr.fq, "all claims of the step are deleted, not a subset", f"`{dt}` keeps some of the old rows: a claim that is re-declared with more units keeps its old number of units", "WHERE node = ? only")
+    if ins:
+        it = re.sub(r"\s+", " ", ins[0].text).upper()
+        ctx.check("ON CONFLICT" not in it and "OR IGNORE" not in it, sr.fq, "the insert does not defer to an existing row", "an existing row wins over the declared units", "plain INSERT")
+    # define_step may reuse the node of a detached step (partial recycle), whose claims are stored per node, not in the step row:
+    # the declared claims - and the declared 'none' - are stored unconditionally
+    ds = ctx.prog.func("workflow.Workflow.define_step")
+    parents = {}
+    for n in ast.walk(ds.node):
+        for c in ast.iter_child_nodes(n):
+            parents[c] = n
+    for setter in ("set_resources", "set_env_overrides"):
+        cs_ = [c for c in calls_in(ds.node) if callee_name(c) == setter]
+        cond = []
+        for c in cs_:
+            node = c
+            while node in parents:
+                node = parents[node]
+                if isinstance(node, ast.If) and re.search(r"\b(resources|env_overrides)\b", ast.unparse(node.test)):
+                    cond.append(ast.unparse(node.test))
+        ctx.check(len(cs_) == 1 and not cond, ds.fq, f"{setter}() is called for every new definition, also when nothing is declared", f"calls: {len(cs_)}, guarded by {cond}: a step that is re-declared without {'resources' if setter == 'set_resources' else 'overrides'} on a reused node keeps the ones of its previous definition (it waits for a resource it no longer asks for, or runs in an environment it no longer declares)", "unconditional", where=ctx.where_of(ds))
+    callers = sorted({cs.caller.fq for sites in ctx.cg.sites.values() for cs in sites if callee_name(cs.node) == "set_resources"})
+    ctx.check({"workflow.Workflow.define_step", "step.Step.after_recycle"} <= set(callers), "step.Step.set_resources", "both declaration paths (new row, full recycle) store the claims", f"callers: {callers}", "define_step and after_recycle")
